@@ -765,7 +765,7 @@ spiftool_version_compare(spif_charptr_t v1, spif_charptr_t v2)
             }
         } else if (isdigit(*v1) && isdigit(*v2)) {
             spif_charptr_t p1 = buff1, p2 = buff2;
-            spif_int32_t ival1, ival2;
+            long ival1, ival2;
             spif_cmp_t c;
 
             /* Compare numbers.  First, copy each number into buffers. */
@@ -774,9 +774,9 @@ spiftool_version_compare(spif_charptr_t v1, spif_charptr_t v2)
             *p1 = *p2 = 0;
 
             /* Convert the strings into actual integers. */
-            ival1 = (spif_int32_t) strtol((char *) buff1, (char **) NULL, 10);
-            ival2 = (spif_int32_t) strtol((char *) buff2, (char **) NULL, 10);
-            D_CONF(("     -> Comparing as integers %d vs. %d\n", (int) ival1, (int) ival2));
+            ival1 = strtol((char *) buff1, (char **) NULL, 10);
+            ival2 = strtol((char *) buff2, (char **) NULL, 10);
+            D_CONF(("     -> Comparing as integers %ld vs. %ld\n", ival1, ival2));
 
             /* Compare the integers and return if not equal. */
             c = (ival1 < ival2) ? SPIF_CMP_LESS : ((ival1 > ival2) ? SPIF_CMP_GREATER : SPIF_CMP_EQUAL);
